@@ -10,7 +10,9 @@ package record_test
 import (
 	"bytes"
 	"context"
+	"crypto/elliptic"
 	"crypto/rand"
+	"encoding/base64"
 	"encoding/binary"
 	"errors"
 	"fmt"
@@ -124,12 +126,42 @@ func vfC08Unsigned(domain string, typ, payload []byte) []byte {
 // keys
 // ---------------------------------------------------------------------------------------------
 
-// concrete key types; the abstract type "RSA" is RSA-2048 (and RSA-3072 in the thorough tier)
+// The KEY dimension of the concretisation is a FAMILY per abstract key type: ECDSA on every NIST curve the
+// package accepts, RSA at several sizes, and (for every type) many fresh keys.  The first member is the
+// package default.
 var vfC08AbstractTypes = []string{"Ed25519", "Secp256k1", "ECDSA", "RSA"}
 
+var vfC08Families = map[string][]string{
+	"Ed25519":   {"Ed25519"},
+	"Secp256k1": {"Secp256k1"},
+	"ECDSA":     {"ECDSA", "ECDSA-P384", "ECDSA-P521", "ECDSA-P224"},
+	"RSA":       {"RSA", "RSA3072", "RSA4096"}, // 2048 is also the minimum size the package accepts
+}
+
+func vfC08AllConcrete() []string {
+	var out []string
+	for _, a := range vfC08AbstractTypes {
+		out = append(out, vfC08Families[a]...)
+	}
+	return out
+}
+
+func vfC08AbstractOf(kt string) string {
+	for a, f := range vfC08Families {
+		for _, c := range f {
+			if c == kt {
+				return a
+			}
+		}
+	}
+	return kt
+}
+
+// the uniform key-type profiles of the envelope replay and the byte layer (every positive clause runs over
+// the whole family in TestVerifC08KeyFamily; the mixed profiles draw from the whole family)
 func vfC08ConcreteTypes() []string {
 	if vfh.Thorough() {
-		return []string{"Ed25519", "Secp256k1", "ECDSA", "RSA", "RSA3072"}
+		return []string{"Ed25519", "Secp256k1", "ECDSA", "RSA", "RSA3072", "ECDSA-P384", "ECDSA-P521"}
 	}
 	return []string{"Ed25519", "Secp256k1", "ECDSA", "RSA"}
 }
@@ -141,7 +173,7 @@ type vfC08Pair struct {
 
 var (
 	vfC08RSAOnce sync.Once
-	vfC08RSAPool map[string][]vfC08Pair // generated once per run
+	vfC08RSAPool map[string][]vfC08Pair // generated (2048) / unmarshalled from the embedded test keys once per run
 	vfC08GenMu   sync.Mutex
 	vfC08GenCnt  = map[string]int{}
 )
@@ -151,54 +183,74 @@ const vfC08RSAPoolSize = 3
 func vfC08RSA(kt string, i int) vfC08Pair {
 	vfC08RSAOnce.Do(func() {
 		vfC08RSAPool = map[string][]vfC08Pair{}
-		sizes := map[string]int{"RSA": 2048}
-		if vfh.Thorough() {
-			sizes["RSA3072"] = 3072
-		}
 		var wg sync.WaitGroup
 		var mu sync.Mutex
-		for name, bits := range sizes {
-			for j := 0; j < vfC08RSAPoolSize; j++ {
-				wg.Add(1)
-				go func(name string, bits int) {
-					defer wg.Done()
-					priv, pub, err := crypto.GenerateKeyPairWithReader(crypto.RSA, bits, rand.Reader)
-					if err != nil {
-						panic(err)
-					}
-					mu.Lock()
-					vfC08RSAPool[name] = append(vfC08RSAPool[name], vfC08Pair{priv, pub})
-					mu.Unlock()
-				}(name, bits)
+		for j := 0; j < vfC08RSAPoolSize; j++ {
+			wg.Add(1)
+			go func() {
+				defer wg.Done()
+				priv, pub, err := crypto.GenerateKeyPairWithReader(crypto.RSA, 2048, rand.Reader)
+				if err != nil {
+					panic(err)
+				}
+				mu.Lock()
+				vfC08RSAPool["RSA"] = append(vfC08RSAPool["RSA"], vfC08Pair{priv, pub})
+				mu.Unlock()
+			}()
+		}
+		for name, keys := range vfC08EmbeddedRSA {
+			for _, b64 := range keys {
+				raw, err := base64.StdEncoding.DecodeString(b64)
+				if err != nil {
+					panic(err)
+				}
+				priv, err := crypto.UnmarshalPrivateKey(raw)
+				if err != nil {
+					panic(fmt.Sprintf("vfC08: embedded %s test key does not unmarshal: %v", name, err))
+				}
+				vfC08RSAPool[name] = append(vfC08RSAPool[name], vfC08Pair{priv, priv.GetPublic()})
 			}
 		}
 		wg.Wait()
 		vfC08GenMu.Lock()
-		for name := range sizes {
-			vfC08GenCnt[name] += vfC08RSAPoolSize
-		}
+		vfC08GenCnt["RSA"] += vfC08RSAPoolSize
 		vfC08GenMu.Unlock()
 	})
 	p := vfC08RSAPool[kt]
 	return p[i%len(p)]
 }
 
+func vfC08Curve(kt string) elliptic.Curve {
+	switch kt {
+	case "ECDSA":
+		return crypto.ECDSACurve
+	case "ECDSA-P224":
+		return elliptic.P224()
+	case "ECDSA-P384":
+		return elliptic.P384()
+	case "ECDSA-P521":
+		return elliptic.P521()
+	}
+	return nil
+}
+
 // vfC08Gen returns a fresh key pair of the concrete type (RSA: the i-th key of the per-run pool).
 func vfC08Gen(kt string, i int) vfC08Pair {
-	var typ int
+	var priv crypto.PrivKey
+	var pub crypto.PubKey
+	var err error
 	switch kt {
-	case "RSA", "RSA3072":
+	case "RSA", "RSA3072", "RSA4096":
 		return vfC08RSA(kt, i)
 	case "Ed25519":
-		typ = crypto.Ed25519
+		priv, pub, err = crypto.GenerateKeyPairWithReader(crypto.Ed25519, 0, rand.Reader)
 	case "Secp256k1":
-		typ = crypto.Secp256k1
-	case "ECDSA":
-		typ = crypto.ECDSA
+		priv, pub, err = crypto.GenerateKeyPairWithReader(crypto.Secp256k1, 0, rand.Reader)
+	case "ECDSA", "ECDSA-P224", "ECDSA-P384", "ECDSA-P521":
+		priv, pub, err = crypto.GenerateECDSAKeyPairWithCurve(vfC08Curve(kt), rand.Reader)
 	default:
 		panic("vfC08: unknown key type " + kt)
 	}
-	priv, pub, err := crypto.GenerateKeyPairWithReader(typ, 0, rand.Reader)
 	if err != nil {
 		panic(err)
 	}
